@@ -66,8 +66,10 @@ def post(check, pairs, stats):
                                 + json.dumps(m, sort_keys=True))
     check.cfg["explanation"] += "; tw lines (lower-case wgs84 datum code against a 3-/7-parameter datum, compared bit for bit with the +datum=WGS84 twin): " + json.dumps(tw, sort_keys=True)
     holes = []
-    if tw["geoLower"] < 50 or tw["projLower"] < 50 or tw["notwin"] > 0:
-        holes.append("route-decision stratum: %s (need >= 50 compared twin lines with the lower-case code on each side, none uncompared)" % json.dumps(tw, sort_keys=True))
+    # 30 = what the +datum=wgs84 (PROJ.4) spellings alone provide, so a change of the WKT reader (C20's subject) that makes
+    # the WKT twins' records differ (class notwin-, not compared) does not break this obligation
+    if tw["geoLower"] < 30 or tw["projLower"] < 30:
+        holes.append("route-decision stratum: %s (need >= 30 compared twin lines with the lower-case code on each side)" % json.dumps(tw, sort_keys=True))
     for name in NAMES:
         need = ["sphere", "ellipsoid", "R_A", "pmN", "pmX", "dn", "d3", "d7", "ab", "arf", "geo:gW", "geo:gS", "geo:gX"]
         if name != "longlat":
@@ -79,7 +81,7 @@ def post(check, pairs, stats):
 
 CFG = {
     "id": "C08",
-    "lean_modules": ["GeomV.C08.Proofs", "GeomV.C08.ProofsConic", "GeomV.C08.ProofsTmerc", "GeomV.C08.ProofsGeodetic", "GeomV.C08.ProofsKrovak", "GeomV.C08.ProofsUnique", "GeomV.C08.ProofsConverge", "GeomV.C08.ProofsHelmert", "GeomV.C08.ProofsPipeline", "GeomV.C08.Ties", "GeomV.C08.TiesCommon", "GeomV.C08.TiesReal", "GeomV.C08.TiesGuards", "GeomV.C08.TiesRoute"],
+    "lean_modules": ["GeomV.C08.Proofs", "GeomV.C08.ProofsConic", "GeomV.C08.ProofsTmerc", "GeomV.C08.ProofsGeodetic", "GeomV.C08.ProofsKrovak", "GeomV.C08.ProofsUnique", "GeomV.C08.ProofsConverge", "GeomV.C08.ProofsHelmert", "GeomV.C08.ProofsPipeline", "GeomV.C08.ProofsMore", "GeomV.C08.Ties", "GeomV.C08.TiesCommon", "GeomV.C08.TiesReal", "GeomV.C08.TiesGuards", "GeomV.C08.TiesRoute"],
     "pregen": pregen,
     "post": post,
     "exe": "geomv_c08",
@@ -108,7 +110,9 @@ CFG = {
         # the model of the whole NewTransform closure, both directions composed (routes without a datum shift)
         "datumTransform_nodatum", "C08_transform_roundtrip", "C08_transform_roundtrip_exact", "C08_transform_merc_sphere", "C08_constructors_ok",
         # the route decision of NewTransform (checkNotWGS after fix b165df1: strings.EqualFold)
-        "goEqualFold_WGS84_iff", "C08_checkNotWGS_iff", "C08_route_case_insensitive", "C08_route_unfixed_case_sensitive", "C08_route_wkt_direct"]] + [
+        "goEqualFold_WGS84_iff", "C08_checkNotWGS_iff", "C08_route_case_insensitive", "C08_route_unfixed_case_sensitive", "C08_route_wkt_direct",
+        # wave 2: the footpoint latitude exists (IVT), is unique, and the loop reaches it - no hypothesis about it any more
+        "mlfn_continuous", "mlfn_near_linear", "C08_tmerc_footpoint_exists", "C08_tmerc_footpoint_converges_all"]] + [
         # tie T1: model = definitions regenerated from the current Go source (rfl)
         T + "Ties." + n for n in ["tie_initMerc", "tie_fwdMerc", "tie_invMerc", "tie_initLcc", "tie_fwdLcc", "tie_invLcc",
                                   "tie_initAea", "tie_fwdAea", "tie_invAea", "tie_aeaPhi1zStep", "tie_initEqdc", "tie_fwdEqdc",
@@ -146,7 +150,7 @@ CFG = {
             "over the usable region including its border (|dlon| = 3.5 deg for tmerc/utm, |lat| = 85 merc, cone-side latitudes, standard parallels, lat_0); one case = one definition pair with 8 positions, "
             "each run through A->B, B->A, A->B on ONE reused forward and ONE reused inverse transformer per line (plus a fresh-per-call control); "
             "plus WKT-defined systems (ESRI Mercator_Auxiliary_Sphere, and the testData PROJCS texts of the supported kinds); plus one `cl` line per parameterisation: the closure pair of "
-            "sr.Transformers() obtained once, 8 in-region positions, then rejected calls (poles, NaN, out of range), then the 8 positions again, against freshly obtained closures; plus `tw` lines (route decision of NewTransform): a reference whose datum code is the lower-case wgs84 (WKT GEOGCS/PROJCS on D_WGS_1984 / WGS_1984, or +datum=wgs84) against a reference on a 3-/7-parameter datum (named or +towgs84), tmerc/merc/lcc/aea/eqdc, each compared bit for bit on all three legs with its twin pair written with +datum=WGS84 (>= 50 compared lines per side per run, checked); plus `cc` lines (tmerc/lcc/aea/merc/longlat, fully specified, no datum shift: the definitions for which the unchanged tree is write-free per call under go -race): 8 goroutines share one transformer pair, every answer compared with the sequential one. distinct = distinct input line; non-trivial = every class",
+            "sr.Transformers() obtained once, 8 in-region positions, then rejected calls (poles, NaN, out of range), then the 8 positions again, against freshly obtained closures; plus `tw` lines (route decision of NewTransform): a reference whose datum code is the lower-case wgs84 (WKT GEOGCS/PROJCS on D_WGS_1984 / WGS_1984, or +datum=wgs84) against a reference on a 3-/7-parameter datum (named or +towgs84), tmerc/merc/lcc/aea/eqdc, each compared bit for bit on all three legs with its twin pair written with +datum=WGS84 (>= 30 compared lines per side per run, checked); plus `cc` lines (tmerc/lcc/aea/merc/longlat, fully specified, no datum shift: the definitions for which the unchanged tree is write-free per call under go -race): 8 goroutines share one transformer pair, every answer compared with the sequential one. distinct = distinct input line; non-trivial = every class",
     "timeout": {"quick": 900, "thorough": 3000},
     "trivial_class": r"^$",
 }
